@@ -80,6 +80,21 @@ def generate(rng, tier):
                 vop = "di.verifyl" if (body is not None and rng.random() < 0.2) else "di.verify"
                 cases.append(Case(vop, [enc(text), enc(path), "N" if body is None else enc(body), what], mop="di.verify",
                                   meta={"kind": kind + ("-symlink" if vop == "di.verifyl" else ""), "nt": kind != "exact" or b"/" in nm or is_patch or vop == "di.verifyl"}))
+        # lookups glued to a recorded name without a '/' in between are lookups of OTHER files (no recorded trailing sub-path)
+        for nm2 in rng.sample(list(files), min(2, len(files))):
+            content2 = files[nm2][0]
+            base2 = nm2.rsplit(b"/", 1)[-1]
+            for glued in (b"lib" + nm2, b"x" + base2, (nm2.rsplit(b"/", 1)[0] + b"x/" + base2) if b"/" in nm2 else b"zz" + nm2, b"a/b" + nm2):
+                cases.append(Case("di.verify", [enc(text), enc(glued), enc(content2), rng.choice(["S"] + [str(a) for a in files[nm2][1]])], meta={"kind": "glued-name", "nt": True}))
+                cases.append(Case("di.find", [enc(text), enc(glued)], meta={"kind": "find-glued", "nt": True}))
+        # Entry-level verification of a file with ANOTHER name: the entry decides whether the patch filter applies
+        for nm2 in rng.sample(list(files), min(2, len(files))):
+            content2, algs2, sums2, is_patch2 = files[nm2]
+            other = rng.choice([b"Makefile.diff", b"copy.orig", b"patch-zz", b"some.tar.gz", b"dir/patch-copy", b"emul-x-patch-y"])
+            for body in (content2, content2 + b"+ $NetBSD: extra $\n", content2.rstrip(b"\n")):
+                what = rng.choice([str(a) for a in algs2] + ["S"])
+                cases.append(Case("di.everify", [enc(text), enc(nm2), enc(other), enc(body), what], mop="di.verify", margs=[enc(text), enc(nm2), enc(body), what],
+                                  meta={"kind": "entry-level", "nt": True}))
         # a corrupted record: change one recorded hash character / the size
         nm = rng.choice(list(files))
         content, algs, sums, is_patch = files[nm]
